@@ -18,6 +18,9 @@ import time
 import traceback
 
 from . import VERIF_DIR
+
+# where shrunk failures go; trials against scratch worktrees (tools/mutant.sh) point this elsewhere
+REPLAY_DIR = os.environ.get('GXV_REPLAY_DIR') or os.path.join(VERIF_DIR, 'replay')
 from . import findings as findings_mod
 
 MAX_SAMPLES = 8
@@ -314,7 +317,7 @@ def _campaign(ctx, scratch_root, mod_name, mod, pid, a, seed, t0):
             print(f'KNOWN-FINDING: property={pid} [{m["id"]}] {m["what"]}')
         replay_paths = []
         if unlisted:
-            os.makedirs(os.path.join(VERIF_DIR, 'replay'), exist_ok=True)
+            os.makedirs(REPLAY_DIR, exist_ok=True)
             for vs in unlisted[6:int(os.environ.get('GXV_MAX_PRINT', '60'))]:
                 print(f'violation(more) clause={vs[0]["clause"]} sig={vs[0]["sig"]} occurrences={len(vs)} detail={json.dumps(vs[0]["detail"], default=repr)[:300]}')
             for vs in unlisted[:6]:
@@ -324,7 +327,7 @@ def _campaign(ctx, scratch_root, mod_name, mod, pid, a, seed, t0):
                         v = _shrink(pool, mod_name, mod, v)
                     except Exception:
                         pass
-                path = os.path.join(VERIF_DIR, 'replay', f'{pid}-{case_hash([v["clause"], v["sig"]])}.json')
+                path = os.path.join(REPLAY_DIR, f'{pid}-{case_hash([v["clause"], v["sig"]])}.json')
                 with open(path, 'w') as f:
                     json.dump({'property': pid, 'clause': v['clause'], 'sig': v['sig'], 'detail': v['detail'],
                                'case': v['case'], 'seed': seed, 'tier': tier, 'occurrences': len(vs)}, f, indent=1,
